@@ -114,7 +114,8 @@ def handle (line : String) : Json :=
             | t => throw s!"bad path step {t}")
           let k ← nat (← fld j "k")
           let flag ← Wire.bool (← fld j "flag")
-          let storage := ["lift_alloc", "sink_alloc", "delete_buffer", "delete_pass", "expand_dim", "bind_expr"]
+          let storage := ["lift_alloc", "sink_alloc", "delete_buffer", "delete_pass", "expand_dim", "bind_expr",
+                          "divide_dim", "mult_dim", "rearrange_dim", "resize_dim", "unroll_buffer"]
           match (if storage.contains name then Exo.Rw.checkStorage name path k flag before.body after.body
                  else Exo.Rw.check' name path k flag before.body after.body) with
           | .ok _ => pure (Json.mkObj [("match", .bool true)])
